@@ -53,7 +53,13 @@ func (b *listItemParser) Open(parent ast.Node, reader text.Reader, pc Context) (
 func (b *listItemParser) Continue(node ast.Node, reader text.Reader, pc Context) State {
 	line, _ := reader.PeekLine()
 	if util.IsBlank(line) {
-		reader.Advance(len(line) - 1)
+		// a blank line keeps the whitespace beyond the content offset: it may be
+		// the content of a code block
+		if pos, padding := util.IndentPosition(line, reader.LineOffset(), lastOffset(node.Parent())); pos >= 0 {
+			reader.AdvanceAndSetPadding(pos, padding)
+		} else {
+			reader.Advance(len(line) - 1)
+		}
 		return Continue | HasChildren
 	}
 
